@@ -26,17 +26,33 @@ def _work(i):
     from . import smt, interp
     q0 = dict(smt.STATS); p0 = list(interp.QSTAT)
     signal.signal(signal.SIGALRM, _alarm); signal.alarm(int(ob.timeout or (1800 if _CTX.thorough else 600)))
-    try: r = ob.fn(_CTX, *ob.args, **ob.kwargs)
+    from . import autosum
+    n0 = len(autosum.LOG)
+    try:
+        for attempt_ in range(40):
+            try: r = ob.fn(_CTX, *ob.args, **ob.kwargs); break
+            except autosum.RestartObligation: continue        # a helper's contract was inferred and proved: run the obligation again
+        else: r = inconc('more than 40 helper contracts needed')
     except _Timeout: r = inconc('obligation exceeded its wall-clock budget')
     except Exception as e:
         from .interp import Unsupported
         r = inconc('%s: %s' % (type(e).__name__, e), trace=traceback.format_exc()[-1500:])
     finally: signal.alarm(0)
     r['id'] = ob.id; r['wall_s'] = round(time.time() - t0, 3)
+    if len(autosum.LOG) > n0: r['auto_contracts'] = autosum.LOG[n0:]
     r['queries'] = smt.STATS['queries'] - q0['queries']; r['solver_s'] = round(smt.STATS['solver_s'] - q0['solver_s'], 3)
     r['path_queries'] = interp.QSTAT[0] - p0[0]; r['path_solver_s'] = round(interp.QSTAT[1] - p0[1], 3)
     r['cvc5_checked'] = smt.STATS['cvc5_checked'] - q0['cvc5_checked']; r['cvc5_agree'] = smt.STATS['cvc5_agree'] - q0['cvc5_agree']
     return r
+
+def _auto_contracts(results):
+    """helper-function contracts inferred and proved during this run (autosum.py), de-duplicated"""
+    seen = {}; 
+    for r in results:
+        for c in r.get('auto_contracts', []) or []:
+            k = (c.get('function'), c.get('key'))
+            if k not in seen: seen[k] = dict(c, used_by=r['id'])
+    return list(seen.values())[:60]
 
 def load_known():
     known = []; fixed = []
@@ -143,6 +159,7 @@ def write_evidence(mod, ctx, results, val, wall, nviol, nknown, ninc):
             'translator_validation_vectors': val.get('vectors', 0), 'translator_validation_mismatches': len(val.get('mismatches', [])),
             'ir_build': os.path.basename(ctx.bdir), 'known_findings': nknown, 'inconclusive': ninc,
             'obligation_list': [{'id': r['id'], 'status': r['status'], 'wall_s': r['wall_s'], 'queries': r.get('queries', 0), 'detail': (r.get('detail') or '')[:160]} for r in results][:400],
+            'auto_contracts': _auto_contracts(results),
             'vacuity_twins': sum(1 for r in results if r.get('twin') == 'sat'),
         },
         'assumptions': meta.get('assumptions', []),
